@@ -2076,18 +2076,23 @@ def m_opt_filter(I, state, frame, bi, t, args, span):
     vs = adt_variants(o) if (o[0] == "adt" and o[1] == OPTION) else {0: (), 1: (TOP,)}
     res = []
     if nm == "filter":
-        res.append((adt(OPTION, {0: ()}), state.copy()))
+        none_state = state.copy()
+        may_none = 0 in vs
         if 1 in vs:
             root = ("optf", frame.fid, bi)
             s1 = state.copy()
             s1.heap[root] = vs[1][0]
             for (rv, s2) in call_closure(I, s1, frame, bi, args[1], [ref(root, ())], span):
+                if not (rv[0] == "fin" and rv[1] == BOOL and (0,) not in rv[2]):
+                    may_none = True       # the predicate can answer false
                 if not (rv[0] == "fin" and rv[1] == BOOL and (1,) not in rv[2]):
                     # kept: the predicate answered true (refine what it was computed from, e.g. a strategy answer)
                     if rv[0] == "fin" and rv[1] == BOOL and len(rv) > 3 and rv[3]:
                         if I.apply_links(s2, rv[3], 1) is False:
                             continue
                     res.append((some(vs[1][0]), s2))
+        if may_none:
+            res.insert(0, (adt(OPTION, {0: ()}), none_state))
         return res
     if 0 in vs:
         res.append((FALSE if nm == "is_some_and" else TRUE, state.copy()))
